@@ -43,6 +43,7 @@ RETRYABLE = ["notfound", "addrnotfound", "sendfail", "reqtimeout", "ctxdeadline"
 SLEEP_CASES = [(50, -10, 0), (50, 0, 0), (50, 1, 0), (50, 20, 0), (50, 50, 0), (50, 200, 0), (300, 120, 0), (1, 500, 0), (200, 1000, 60), (100, 40, 500), (0, 100, 0)]
 HI_TOL = 45 * MS       # scheduling tolerance on a single sleep (observed jitter on a loaded machine: 1-20 ms); persistent over 3 runs to count
 TOTAL_TOL = 70 * MS    # the same for the whole call
+ASYNC_TOL = 35 * MS    # the asynchronous path has no timer at all: anything beyond scheduling noise is a sleep
 LO_TOL = 3 * MS        # a timer never fires early; skew between the harness' reading and the loop's own
 AMBIG = 30 * MS        # |remaining| below this at the deciding step: either decision is consistent
 DL_TOL = 40 * MS       # start is read a little after the first ActorOf returned
@@ -122,6 +123,18 @@ def gen_scenarios(ctx):
     scs.append({"n": len(scs), "max_wait_ms": 300, "in_cluster": True, "attempts": [], "tail": att("sendfail"), "cancel_ms": 0, "async": False, "deliver_err": False, "via_send": True})
     for a in (pinned, att("sendfail"), att("pinned", resolve_ms=40)):
         scs.append({"n": len(scs), "max_wait_ms": 0, "in_cluster": True, "attempts": [], "tail": a, "cancel_ms": 0, "async": True, "deliver_err": False, "via_send": True})
+    # the delivery itself fails, with or without the endpoint being marked as relocating while it runs
+    # (a NodeLeft landing between the resolution and the dial): the outcome is surfaced as is, nothing is
+    # re-resolved, nothing sleeps - on the asynchronous path in particular
+    kinds = ["connrefused", "sendfail", "nettimeout", "reqtimeout", "terminal"]
+    for i, kind in enumerate(kinds if ctx.thorough else kinds[:4]):
+        for flip in (True, False):
+            scs.append({"n": len(scs), "max_wait_ms": 0, "in_cluster": True, "attempts": [], "tail": live, "cancel_ms": 0, "async": True,
+                        "deliver_err": False, "deliver_result": kind, "flip_during_deliver": flip})
+        scs.append({"n": len(scs), "max_wait_ms": [0, 300, 1000][i % 3], "in_cluster": True, "attempts": [pinned] * (i % 2), "tail": live, "cancel_ms": 0,
+                    "async": False, "deliver_err": False, "deliver_result": kind, "flip_during_deliver": True})
+    scs.append({"n": len(scs), "max_wait_ms": 0, "in_cluster": False, "attempts": [], "tail": live, "cancel_ms": 0, "async": True,
+                "deliver_err": False, "deliver_result": "connrefused", "flip_during_deliver": True})
     # seeded random
     for _ in range(40 if ctx.thorough else 10):
         mw = rng.choice([0, 0, rng.randint(20, 900), rng.randint(60, 400), 3500])
@@ -197,12 +210,18 @@ def evaluate(ctx, scs, outs, hi_tol, total_tol, pred):
         if sc["async"]:
             if len(seen) != 1:
                 flag("violation", "deliverBypassingHandoff:attempts", "SendAsync path resolved %d times" % len(seen))
-            if o["ret_ns"] - resolve_ns > total_tol:
+            if o["ret_ns"] - resolve_ns > ASYNC_TOL:
                 flag("violation", "deliverBypassingHandoff:blocked", "SendAsync path took %.0f ms beyond the resolution itself" % ((o["ret_ns"] - resolve_ns) / MS))
             if sc["in_cluster"] and last_cls == "Pinned" and o["err"] != "inprogress":
                 flag("violation", "deliverBypassingHandoff:error", "departing endpoint: expected the retryable ErrRelocationInProgress, got %s" % o["err"])
             want = {"Live": "ok", "Pinned": "inprogress" if sc["in_cluster"] else "ok", "NotFound": "resolution", "Terminal": "resolution"}[last_cls]
-            if o["err"] != want or (want == "ok") != (o["delivered"] == 1):
+            if o["delivered"] > 1:
+                flag("violation", "deliverBypassingHandoff:delivered-twice", "SendAsync path delivered %d times" % o["delivered"])
+            if want == "ok" and (sc.get("deliver_result") or sc.get("deliver_err")):
+                want = "deliver"
+                if o["err"] != "deliver" and o["delivered"] >= 1:
+                    flag("violation", "deliverBypassingHandoff:error", "the delivery failed with %s; SendAsync path returned %s instead of that error" % (sc.get("deliver_result"), o["err"]))
+            if o["err"] != want or (want in ("ok", "deliver")) != (o["delivered"] == 1):
                 flag("tie", "deliverBypassingHandoff model vs Go", "result %s/%d deliveries, model %s" % (o["err"], o["delivered"], want))
             continue
         if not sc["in_cluster"]:
@@ -218,6 +237,9 @@ def evaluate(ctx, scs, outs, hi_tol, total_tol, pred):
                  "masked send with timeout %d ms returned after %.0f ms (%.0f ms inside ActorOf)" % (sc["max_wait_ms"], o["ret_ns"] / MS, resolve_ns / MS))
         if o["delivered"] > 1:
             flag("violation", "deliverAcrossHandoff:delivered-twice", "deliver invoked %d times" % o["delivered"])
+        if o["delivered"] >= 1 and (any(a["entry_ns"] > o["deliver_at_ns"] for a in seen) or o["ret_ns"] - o["deliver_at_ns"] > total_tol):
+            flag("violation", "deliverAcrossHandoff:after-delivery", "after the delivery the send kept going: %d later resolutions, returned %.0f ms after the delivery" %
+                 (sum(1 for a in seen if a["entry_ns"] > o["deliver_at_ns"]), (o["ret_ns"] - o["deliver_at_ns"]) / MS))
         if o["delivered"] == 1:
             if mw > 0 and (not o["has_deadline"] or o["deadline_ns"] > seen[0]["ret_ns"] + mw + DL_TOL):
                 flag("violation", "deliverAcrossHandoff:deliver-deadline",
